@@ -1,0 +1,139 @@
+//go:build verif
+
+// Contracts for the deposit path (C03) and the hand-over queue (C06); comment-only.
+package keeper
+
+
+//@ smt (define-fun slc_int_at ((t Slc_Int) (i Int)) Int (select (arr_Slc_Int t) (+ (off_Slc_Int t) i)))
+//@ smt (define-fun minint ((a Int) (b Int)) Int (ite (<= a b) a b))
+//@ smt (define-fun hcnt ((bn Int) (tip Int)) Int (ite (< bn tip) 1 0))
+//@ smt (declare-fun ethtx_hash (Int Bytes) Int)
+//@ smt (declare-fun ethtx_deposit (Opt_T_bitcoin_types_DepositExecReceipt Int) Int)
+//@ smt (declare-fun ethtx_paid (Opt_T_bitcoin_types_WithdrawalExecReceipt Int) Int)
+//@ smt (declare-fun ethtx_reject (Int Int) Int)
+//@ smt (define-fun txs_dep ((t Slc_Int) (base Int) (q Slc_Opt_T_bitcoin_types_DepositExecReceipt) (n Int) (nonce Int)) Bool (forall ((k Int)) (! (=> (and (<= (+ (off_Slc_Int t) base) k) (< k (+ (off_Slc_Int t) base n)))
+//@       (= (select (arr_Slc_Int t) k) (ethtx_deposit (select (arr_Slc_Opt_T_bitcoin_types_DepositExecReceipt q) (+ (off_Slc_Opt_T_bitcoin_types_DepositExecReceipt q) (- k (off_Slc_Int t) base))) (+ nonce (- k (off_Slc_Int t) base))))) :pattern ((select (arr_Slc_Int t) k)))))
+//@ smt (define-fun txs_paid ((t Slc_Int) (base Int) (q Slc_Opt_T_bitcoin_types_WithdrawalExecReceipt) (n Int) (nonce Int)) Bool (forall ((k Int)) (! (=> (and (<= (+ (off_Slc_Int t) base) k) (< k (+ (off_Slc_Int t) base n)))
+//@       (= (select (arr_Slc_Int t) k) (ethtx_paid (select (arr_Slc_Opt_T_bitcoin_types_WithdrawalExecReceipt q) (+ (off_Slc_Opt_T_bitcoin_types_WithdrawalExecReceipt q) (- k (off_Slc_Int t) base))) (+ nonce (- k (off_Slc_Int t) base))))) :pattern ((select (arr_Slc_Int t) k)))))
+//@ smt (define-fun txs_rej ((t Slc_Int) (base Int) (q Slc_Int) (n Int) (nonce Int)) Bool (forall ((k Int)) (! (=> (and (<= (+ (off_Slc_Int t) base) k) (< k (+ (off_Slc_Int t) base n)))
+//@       (= (select (arr_Slc_Int t) k) (ethtx_reject (select (arr_Slc_Int q) (+ (off_Slc_Int q) (- k (off_Slc_Int t) base))) (+ nonce (- k (off_Slc_Int t) base))))) :pattern ((select (arr_Slc_Int t) k)))))
+//@ smt (define-fun dq_prefix_eq ((a Slc_Opt_T_bitcoin_types_DepositExecReceipt) (b Slc_Opt_T_bitcoin_types_DepositExecReceipt) (n Int)) Bool (forall ((i Int)) (! (=> (and (<= 0 i) (< i n)) (= (select (arr_Slc_Opt_T_bitcoin_types_DepositExecReceipt a) (+ (off_Slc_Opt_T_bitcoin_types_DepositExecReceipt a) i)) (select (arr_Slc_Opt_T_bitcoin_types_DepositExecReceipt b) (+ (off_Slc_Opt_T_bitcoin_types_DepositExecReceipt b) i)))) :pattern ((select (arr_Slc_Opt_T_bitcoin_types_DepositExecReceipt b) (+ (off_Slc_Opt_T_bitcoin_types_DepositExecReceipt b) i))))))
+//@ smt (define-fun dkey ((ds Slc_Opt_T_bitcoin_types_Deposit) (i Int)) Pair_Bytes_Int (mk_Pair_Bytes_Int (dsha256 (T_bitcoin_types_Deposit.NoWitnessTx (val_Opt_T_bitcoin_types_Deposit (select (arr_Slc_Opt_T_bitcoin_types_Deposit ds) (+ (off_Slc_Opt_T_bitcoin_types_Deposit ds) i))))) (T_bitcoin_types_Deposit.OutputIndex (val_Opt_T_bitcoin_types_Deposit (select (arr_Slc_Opt_T_bitcoin_types_Deposit ds) (+ (off_Slc_Opt_T_bitcoin_types_Deposit ds) i))))))
+//@ smt (define-fun keys_distinct ((ds Slc_Opt_T_bitcoin_types_Deposit) (n Int)) Bool (forall ((i Int) (j Int)) (! (=> (and (<= 0 j) (< j i) (< i n)) (not (= (dkey ds i) (dkey ds j)))) :pattern ((dkey ds i) (dkey ds j)))))
+//@ smt (define-fun dom_mono ((a (Array Pair_Bytes_Int Bool)) (b (Array Pair_Bytes_Int Bool))) Bool (forall ((k Pair_Bytes_Int)) (! (=> (select a k) (select b k)) :pattern ((select b k)))))
+
+// ---- C03: one deposit ------------------------------------------------------------------------
+// Vocabulary (txparse_err, txnout, txoutval, txoutscript, encpk, u64, taxSpec, depositScriptV0/V1):
+// see x/bitcoin/types/contracts_verif_deposit.go and contracts_verif_address.go.
+// inv20 is established by C20 (Params.Validate / ProcessBridgeRequest); voted_below_tip and tip_bound by
+// NewBlockHashes (hashes are stored at heights <= tip only; the tip is a block counter).
+
+//@ func (Keeper).VerifyDeposit
+//@ property C03
+//@ requires inv20: st.bitcoin.Params.DepositTaxRate < 10000 && st.bitcoin.Params.MinDepositAmount >= 1000
+//@ requires nonnil: deposit != nil && deposit.RelayerPubkey != nil
+//@ requires voted_below_tip: forall(h, 0, 18446744073709551616, has(st.bitcoin.BlockHashes, h) ==> h <= st.bitcoin.BlockTip)
+//@ requires tip_bound: st.bitcoin.BlockTip < 9223372036854775808
+//@ ensures relayer_key: err == nil ==> has(st.relayer.Pubkeys, encpk(deposit.RelayerPubkey))
+//@ ensures header: err == nil ==> has(headers, deposit.BlockNumber) && len(headers[deposit.BlockNumber]) == 80
+//@ ensures voted_hash: err == nil ==> has(st.bitcoin.BlockHashes, deposit.BlockNumber) && st.bitcoin.BlockHashes[deposit.BlockNumber] == dsha256(headers[deposit.BlockNumber])
+//@ ensures maturity: err == nil ==> (deposit.TxIndex == 0 ==> st.bitcoin.BlockTip >= deposit.BlockNumber + 100)
+//@ ensures parsed: err == nil ==> txparse_err(deposit.NoWitnessTx) == 0 && deposit.OutputIndex < txnout(deposit.NoWitnessTx)
+//@ ensures fresh: err == nil ==> !has(st.bitcoin.Deposited, pair(dsha256(deposit.NoWitnessTx), deposit.OutputIndex))
+//@ ensures min_amount: err == nil ==> u64(txoutval(deposit.NoWitnessTx, deposit.OutputIndex)) >= st.bitcoin.Params.MinDepositAmount
+// FINDING F-C03-1 (clause FAILS, kept disabled so that the check terminates; see /var/tmp/ag_btc/NOTES.md):
+// ensures value_nonneg: err == nil ==> txoutval(deposit.NoWitnessTx, deposit.OutputIndex) >= 0
+//@ ensures script: err == nil ==> (deposit.Version == 0 || deposit.Version == 1)
+//@           && (deposit.Version == 0 ==> depositScriptV0(deposit.RelayerPubkey, deposit.EvmAddress, txoutscript(deposit.NoWitnessTx, deposit.OutputIndex)))
+//@           && (deposit.Version == 1 ==> deposit.OutputIndex == 0 && txnout(deposit.NoWitnessTx) >= 2
+//@                && depositScriptV1(deposit.RelayerPubkey, st.bitcoin.Params.DepositMagicPrefix, deposit.EvmAddress, txoutscript(deposit.NoWitnessTx, 0), txoutscript(deposit.NoWitnessTx, 1)))
+//@ ensures spv: err == nil ==> merkle_ok(deposit.IntermediateProof, dsha256(deposit.NoWitnessTx), deposit.TxIndex, headers[deposit.BlockNumber][36:68])
+//@ ensures receipt: err == nil ==> result != nil && result.GetAddress() == deposit.EvmAddress && result.GetTxid() == dsha256(deposit.NoWitnessTx) && result.GetTxout() == deposit.OutputIndex
+//@ ensures value_identity: err == nil ==> result.GetAmount() + result.GetTax() == u64(txoutval(deposit.NoWitnessTx, deposit.OutputIndex))
+//@ ensures tax: err == nil ==> result.GetTax() == taxSpec(u64(txoutval(deposit.NoWitnessTx, deposit.OutputIndex)), st.bitcoin.Params.DepositTaxRate, st.bitcoin.Params.MaxDepositTax)
+//@ ensures tax_below_value: err == nil ==> result.GetTax() < u64(txoutval(deposit.NoWitnessTx, deposit.OutputIndex))
+//@ ensures reject: err != nil ==> result == nil
+//@ modifies nothing
+//@ nopanic
+
+// ---- C03: a batch of deposits -----------------------------------------------------------------
+// key(j) = pair(dsha256(req.Deposits[j].NoWitnessTx), req.Deposits[j].OutputIndex) is the (txid, output index) of item j.
+// dkey(ds, j): the (txid, output index) key of item j of the deposit list ds, i.e. pair(dsha256(ds[j].NoWitnessTx), ds[j].OutputIndex).
+// keys_distinct(ds, n): the keys of the first n items are pairwise different.
+// items_id / items_value / items_tax (rc, ds, n, ..): receipt j of the receipt list rc belongs to deposit j of ds, for j < n:
+//   same txid, output index and EVM address / amount + tax == output value / tax == taxSpec(value, rate, cap).
+//   (SMT definitions with an explicit pattern on the receipt cell: the solvers are unstable on the pattern-less form; they
+//    live in x/bitcoin/types/contracts_verif_deposit.go because blocks are emitted in file order and they use txoutval etc.)
+// dom_mono(a, b): every key of a is a key of b (entries of Deposited are never removed).
+// dq_prefix_eq(a, b, n): the first n receipts of the queues a and b are the same.
+// Under quantifiers only direct field access is used (see x/bitcoin/types/contracts_verif_deposit.go).
+
+//@ func (msgServer).NewDeposits
+//@ property C03
+//@ requires inv20: st.bitcoin.Params.DepositTaxRate < 10000 && st.bitcoin.Params.MinDepositAmount >= 1000
+//@ requires voted_below_tip: forall(h, 0, 18446744073709551616, has(st.bitcoin.BlockHashes, h) ==> h <= st.bitcoin.BlockTip)
+//@ requires tip_bound: st.bitcoin.BlockTip < 9223372036854775808
+//@ ensures batch_shape: err == nil ==> req != nil && 1 <= len(req.Deposits) && len(req.Deposits) <= 16
+//@ ensures absent_before: err == nil ==> forall(jj, 0, len(req.Deposits), !old(has(st.bitcoin.Deposited, dkey(req.Deposits, jj))))
+//@ ensures present_after: err == nil ==> forall(jj, 0, len(req.Deposits), has(st.bitcoin.Deposited, dkey(req.Deposits, jj)))
+//@ ensures distinct_in_batch: err == nil ==> keys_distinct(req.Deposits, len(req.Deposits))
+//@ ensures never_removed: err == nil ==> dom_mono(old(mapdom(st.bitcoin.Deposited)), mapdom(st.bitcoin.Deposited))
+//@ ensures queue_len: err == nil ==> has(st.bitcoin.EthTxQueue) && len(st.bitcoin.EthTxQueue.Deposits) == old(len(st.bitcoin.EthTxQueue.Deposits)) + len(req.Deposits)
+//@ ensures queue_prefix: err == nil ==> dq_prefix_eq(old(st.bitcoin.EthTxQueue.Deposits), st.bitcoin.EthTxQueue.Deposits, old(len(st.bitcoin.EthTxQueue.Deposits)))
+//@ ensures queue_batch: err == nil ==> items_id(st.bitcoin.EthTxQueue.Deposits[old(len(st.bitcoin.EthTxQueue.Deposits)):], req.Deposits, len(req.Deposits))
+//@ ensures queue_value: err == nil ==> items_value(st.bitcoin.EthTxQueue.Deposits[old(len(st.bitcoin.EthTxQueue.Deposits)):], req.Deposits, len(req.Deposits))
+//@ ensures queue_tax: err == nil ==> items_tax(st.bitcoin.EthTxQueue.Deposits[old(len(st.bitcoin.EthTxQueue.Deposits)):], req.Deposits, len(req.Deposits), st.bitcoin.Params.DepositTaxRate, st.bitcoin.Params.MaxDepositTax)
+//@ ensures queue_rest: err == nil ==> st.bitcoin.EthTxQueue.BlockNumber == old(st.bitcoin.EthTxQueue.BlockNumber) && st.bitcoin.EthTxQueue.PaidWithdrawals == old(st.bitcoin.EthTxQueue.PaidWithdrawals) && st.bitcoin.EthTxQueue.RejectedWithdrawals == old(st.bitcoin.EthTxQueue.RejectedWithdrawals)
+//@ loop 0 invariant idx: -1 <= rangeindex && rangeindex < len(req.Deposits)
+//@ loop 0 invariant count: len(deposits) == rangeindex + 1
+//@ loop 0 invariant items: items_id(deposits, req.Deposits, rangeindex + 1)
+//@ loop 0 invariant items_value: items_value(deposits, req.Deposits, rangeindex + 1)
+//@ loop 0 invariant items_tax: items_tax(deposits, req.Deposits, rangeindex + 1, st.bitcoin.Params.DepositTaxRate, st.bitcoin.Params.MaxDepositTax)
+//@ loop 0 invariant key_set: forall(jj, 0, rangeindex + 1, has(st.bitcoin.Deposited, dkey(req.Deposits, jj)))
+//@ loop 0 invariant absent_before: forall(jj, 0, rangeindex + 1, !old(has(st.bitcoin.Deposited, dkey(req.Deposits, jj))))
+//@ loop 0 invariant distinct: keys_distinct(req.Deposits, rangeindex + 1)
+//@ loop 0 invariant never_removed: dom_mono(old(mapdom(st.bitcoin.Deposited)), mapdom(st.bitcoin.Deposited))
+//@ loop 0 decreases len(req.Deposits) - rangeindex
+//@ modifies st.bitcoin.Deposited, st.bitcoin.EthTxQueue, st.relayer.Relayer
+
+// ---- C06: hand-over of the bitcoin module's queue to the execution layer ----------------------------------
+// ethtx_hash / ethtx_deposit / ethtx_paid / ethtx_reject: the system transactions built by x/bitcoin/types/ethtx.go, as
+// uninterpreted functions of their arguments (summaries in govc/summ_btc.go). h = hcnt(..) is 1 iff a voted block hash is
+// still owed (queue.BlockNumber < tip); d / p / r = number of deposits / paid / rejected withdrawals popped by this call.
+// slc_int_at(t, i): element i of the transaction list t (a spec-level index of an opaque-pointer slice crashes the engine).
+// txs_dep(t, base, q, n, nonce): t[base+i] == ethtx_deposit(q[i], nonce+i) for i < n (txs_paid, txs_rej alike).
+
+//@ func (Keeper).DequeueBitcoinModuleTx
+//@ property C06
+//@ requires counters: st.bitcoin.EthTxNonce < 9223372036854775808
+//@ ensures caps: err == nil ==> len(txs) == hcnt(old(st.bitcoin.EthTxQueue.BlockNumber), st.bitcoin.BlockTip) + minint(len(old(st.bitcoin.EthTxQueue.Deposits)), 8) + minint(len(old(st.bitcoin.EthTxQueue.PaidWithdrawals)), 8) + minint(len(old(st.bitcoin.EthTxQueue.RejectedWithdrawals)), 8 - minint(len(old(st.bitcoin.EthTxQueue.PaidWithdrawals)), 8))
+//@ ensures cap17: err == nil ==> len(txs) <= 17
+//@ ensures nonce: err == nil ==> st.bitcoin.EthTxNonce == old(st.bitcoin.EthTxNonce) + len(txs)
+//@ ensures hash_tx: err == nil ==> (old(st.bitcoin.EthTxQueue.BlockNumber) < st.bitcoin.BlockTip ==> slc_int_at(txs, 0) == ethtx_hash(old(st.bitcoin.EthTxNonce), st.bitcoin.BlockHashes[old(st.bitcoin.EthTxQueue.BlockNumber) + 1])) && st.bitcoin.EthTxQueue.BlockNumber == old(st.bitcoin.EthTxQueue.BlockNumber) + hcnt(old(st.bitcoin.EthTxQueue.BlockNumber), st.bitcoin.BlockTip)
+//@ ensures hash_voted: err == nil ==> (old(st.bitcoin.EthTxQueue.BlockNumber) < st.bitcoin.BlockTip ==> has(st.bitcoin.BlockHashes, old(st.bitcoin.EthTxQueue.BlockNumber) + 1))
+//@ ensures deposit_txs: err == nil ==> txs_dep(txs, hcnt(old(st.bitcoin.EthTxQueue.BlockNumber), st.bitcoin.BlockTip), old(st.bitcoin.EthTxQueue.Deposits), minint(len(old(st.bitcoin.EthTxQueue.Deposits)), 8), old(st.bitcoin.EthTxNonce) + hcnt(old(st.bitcoin.EthTxQueue.BlockNumber), st.bitcoin.BlockTip))
+//@ ensures paid_txs: err == nil ==> txs_paid(txs, hcnt(old(st.bitcoin.EthTxQueue.BlockNumber), st.bitcoin.BlockTip) + minint(len(old(st.bitcoin.EthTxQueue.Deposits)), 8), old(st.bitcoin.EthTxQueue.PaidWithdrawals), minint(len(old(st.bitcoin.EthTxQueue.PaidWithdrawals)), 8), old(st.bitcoin.EthTxNonce) + hcnt(old(st.bitcoin.EthTxQueue.BlockNumber), st.bitcoin.BlockTip) + minint(len(old(st.bitcoin.EthTxQueue.Deposits)), 8))
+//@ ensures reject_txs: err == nil ==> txs_rej(txs, hcnt(old(st.bitcoin.EthTxQueue.BlockNumber), st.bitcoin.BlockTip) + minint(len(old(st.bitcoin.EthTxQueue.Deposits)), 8) + minint(len(old(st.bitcoin.EthTxQueue.PaidWithdrawals)), 8), old(st.bitcoin.EthTxQueue.RejectedWithdrawals), minint(len(old(st.bitcoin.EthTxQueue.RejectedWithdrawals)), 8 - minint(len(old(st.bitcoin.EthTxQueue.PaidWithdrawals)), 8)), old(st.bitcoin.EthTxNonce) + hcnt(old(st.bitcoin.EthTxQueue.BlockNumber), st.bitcoin.BlockTip) + minint(len(old(st.bitcoin.EthTxQueue.Deposits)), 8) + minint(len(old(st.bitcoin.EthTxQueue.PaidWithdrawals)), 8))
+//@ ensures suffixes: err == nil ==> st.bitcoin.EthTxQueue.Deposits == old(st.bitcoin.EthTxQueue.Deposits)[minint(len(old(st.bitcoin.EthTxQueue.Deposits)), 8):] && st.bitcoin.EthTxQueue.PaidWithdrawals == old(st.bitcoin.EthTxQueue.PaidWithdrawals)[minint(len(old(st.bitcoin.EthTxQueue.PaidWithdrawals)), 8):] && st.bitcoin.EthTxQueue.RejectedWithdrawals == old(st.bitcoin.EthTxQueue.RejectedWithdrawals)[minint(len(old(st.bitcoin.EthTxQueue.RejectedWithdrawals)), 8 - minint(len(old(st.bitcoin.EthTxQueue.PaidWithdrawals)), 8)):]
+//@ ensures empty_writes_nothing: err == nil && len(txs) == 0 ==> unchanged(st.bitcoin.EthTxQueue) && unchanged(st.bitcoin.EthTxNonce)
+//@ ensures error_returns_nothing: err != nil ==> len(txs) == 0
+//@ loop 0 invariant bounds: 0 <= n && n <= 8 && n <= len(queue.Deposits)
+//@ loop 0 invariant count: len(txs) == hcnt(old(st.bitcoin.EthTxQueue.BlockNumber), st.bitcoin.BlockTip) + n && txNonce == old(st.bitcoin.EthTxNonce) + hcnt(old(st.bitcoin.EthTxQueue.BlockNumber), st.bitcoin.BlockTip) + n
+//@ loop 0 invariant hash_tx: (old(st.bitcoin.EthTxQueue.BlockNumber) < st.bitcoin.BlockTip ==> slc_int_at(txs, 0) == ethtx_hash(old(st.bitcoin.EthTxNonce), st.bitcoin.BlockHashes[old(st.bitcoin.EthTxQueue.BlockNumber) + 1]))
+//@ loop 0 invariant deposit_txs: txs_dep(txs, hcnt(old(st.bitcoin.EthTxQueue.BlockNumber), st.bitcoin.BlockTip), old(st.bitcoin.EthTxQueue.Deposits), n, old(st.bitcoin.EthTxNonce) + hcnt(old(st.bitcoin.EthTxQueue.BlockNumber), st.bitcoin.BlockTip))
+//@ loop 0 decreases len(queue.Deposits) - n
+//@ loop 1 invariant bounds: 0 <= n && n <= 8 && n <= len(queue.PaidWithdrawals)
+//@ loop 1 invariant count: len(txs) == hcnt(old(st.bitcoin.EthTxQueue.BlockNumber), st.bitcoin.BlockTip) + minint(len(old(st.bitcoin.EthTxQueue.Deposits)), 8) + n && txNonce == old(st.bitcoin.EthTxNonce) + hcnt(old(st.bitcoin.EthTxQueue.BlockNumber), st.bitcoin.BlockTip) + minint(len(old(st.bitcoin.EthTxQueue.Deposits)), 8) + n
+//@ loop 1 invariant hash_tx: (old(st.bitcoin.EthTxQueue.BlockNumber) < st.bitcoin.BlockTip ==> slc_int_at(txs, 0) == ethtx_hash(old(st.bitcoin.EthTxNonce), st.bitcoin.BlockHashes[old(st.bitcoin.EthTxQueue.BlockNumber) + 1]))
+//@ loop 1 invariant deposit_txs: txs_dep(txs, hcnt(old(st.bitcoin.EthTxQueue.BlockNumber), st.bitcoin.BlockTip), old(st.bitcoin.EthTxQueue.Deposits), minint(len(old(st.bitcoin.EthTxQueue.Deposits)), 8), old(st.bitcoin.EthTxNonce) + hcnt(old(st.bitcoin.EthTxQueue.BlockNumber), st.bitcoin.BlockTip))
+//@ loop 1 invariant paid_txs: txs_paid(txs, hcnt(old(st.bitcoin.EthTxQueue.BlockNumber), st.bitcoin.BlockTip) + minint(len(old(st.bitcoin.EthTxQueue.Deposits)), 8), old(st.bitcoin.EthTxQueue.PaidWithdrawals), n, old(st.bitcoin.EthTxNonce) + hcnt(old(st.bitcoin.EthTxQueue.BlockNumber), st.bitcoin.BlockTip) + minint(len(old(st.bitcoin.EthTxQueue.Deposits)), 8))
+//@ loop 1 decreases len(queue.PaidWithdrawals) - n
+//@ loop 2 invariant bounds: 0 <= i && i <= len(queue.RejectedWithdrawals) && n == minint(len(old(st.bitcoin.EthTxQueue.PaidWithdrawals)), 8) + i && n <= 8
+//@ loop 2 invariant count: len(txs) == hcnt(old(st.bitcoin.EthTxQueue.BlockNumber), st.bitcoin.BlockTip) + minint(len(old(st.bitcoin.EthTxQueue.Deposits)), 8) + minint(len(old(st.bitcoin.EthTxQueue.PaidWithdrawals)), 8) + i && txNonce == old(st.bitcoin.EthTxNonce) + hcnt(old(st.bitcoin.EthTxQueue.BlockNumber), st.bitcoin.BlockTip) + minint(len(old(st.bitcoin.EthTxQueue.Deposits)), 8) + minint(len(old(st.bitcoin.EthTxQueue.PaidWithdrawals)), 8) + i
+//@ loop 2 invariant hash_tx: (old(st.bitcoin.EthTxQueue.BlockNumber) < st.bitcoin.BlockTip ==> slc_int_at(txs, 0) == ethtx_hash(old(st.bitcoin.EthTxNonce), st.bitcoin.BlockHashes[old(st.bitcoin.EthTxQueue.BlockNumber) + 1]))
+//@ loop 2 invariant deposit_txs: txs_dep(txs, hcnt(old(st.bitcoin.EthTxQueue.BlockNumber), st.bitcoin.BlockTip), old(st.bitcoin.EthTxQueue.Deposits), minint(len(old(st.bitcoin.EthTxQueue.Deposits)), 8), old(st.bitcoin.EthTxNonce) + hcnt(old(st.bitcoin.EthTxQueue.BlockNumber), st.bitcoin.BlockTip))
+//@ loop 2 invariant paid_txs: txs_paid(txs, hcnt(old(st.bitcoin.EthTxQueue.BlockNumber), st.bitcoin.BlockTip) + minint(len(old(st.bitcoin.EthTxQueue.Deposits)), 8), old(st.bitcoin.EthTxQueue.PaidWithdrawals), minint(len(old(st.bitcoin.EthTxQueue.PaidWithdrawals)), 8), old(st.bitcoin.EthTxNonce) + hcnt(old(st.bitcoin.EthTxQueue.BlockNumber), st.bitcoin.BlockTip) + minint(len(old(st.bitcoin.EthTxQueue.Deposits)), 8))
+//@ loop 2 invariant reject_txs: txs_rej(txs, hcnt(old(st.bitcoin.EthTxQueue.BlockNumber), st.bitcoin.BlockTip) + minint(len(old(st.bitcoin.EthTxQueue.Deposits)), 8) + minint(len(old(st.bitcoin.EthTxQueue.PaidWithdrawals)), 8), old(st.bitcoin.EthTxQueue.RejectedWithdrawals), i, old(st.bitcoin.EthTxNonce) + hcnt(old(st.bitcoin.EthTxQueue.BlockNumber), st.bitcoin.BlockTip) + minint(len(old(st.bitcoin.EthTxQueue.Deposits)), 8) + minint(len(old(st.bitcoin.EthTxQueue.PaidWithdrawals)), 8))
+//@ loop 2 decreases len(queue.RejectedWithdrawals) - i
+//@ modifies st.bitcoin.EthTxQueue, st.bitcoin.EthTxNonce
+//@ nopanic
